@@ -40,9 +40,9 @@ CHECKS = {
    text="A genuine certified chain plus invalid variants is submitted concurrently, in and out of order and duplicated, to the real EngineManager while readers call get_block and the simulated persistence layer lags, jumps ahead through a side channel, prunes and is restarted from its durable state. Oracles: only genuine blocks reach the execution layer, in order and without gaps from the durable head; never two blocks for one number; queued/persisted ranges consistent at every step; any number inside queued() reads back the genuine block until pruned; invalid submissions are rejected. The same oracles are active on the manager inside every consensus-cluster run.",
    note="EngineInterface contract: queue_next_block accepts the block directly after the previously queued one; blocks at or below the durable head are ignored. Peer path (get_block RPC answers) not simulated yet."),
  "C12": dict(engine="primsim", design="DESIGN.md section 5 (C12)",
-   technique="deterministic simulation of the real connection pool under concurrent inserts/removes; reference set model and per-step invariant",
-   text="Pool half of C12 only: concurrent connections race for the same identities and for the quota of unlisted peers on the real PoolWatch; after every step the pool holds at most one entry per key and at most `quota` keys outside the allowed set, every admission decision equals a reference set model, and the quota neither leaks nor over-admits. The handshake half (authentication, genesis, expected peer) is NOT claimed in this revision.",
-   note="Handshake half needs the simulated TCP seam (hook H2), not built yet."),
+   technique="deterministic simulation of whole network nodes over simulated TCP against a handshake adversary (replay, relay, forged signer, wrong chain, outsider, impersonating the dialled peer); ground-truth oracle on who holds which secret; plus the real connection pool under concurrent inserts/removes against a reference set model",
+   text="Handshake half: a real node runs its accept loop, preface, noise and handshake code and dials peers from its address book over a simulated TCP layer; the adversary holds a Byzantine committee key and outsider keys, can listen, dial, hijack an address and record handshakes of a second honest node, and plays one of 14 strategies per run. Whenever an identity appears in one of the victim's four pools the harness demands a live connection in that direction whose far-end actor holds that identity's secret key, committee membership on the validator network, and the inbound quota for unlisted gossip peers. Pool half: concurrent connections race for the same identities and for the quota of unlisted peers on the real PoolWatch; after every step the pool holds at most one entry per key and at most `quota` keys outside the allowed set, every admission decision equals a reference set model, and the quota neither leaks nor over-admits.",
+   note="The adversary cannot forge signatures (ed25519 / BLS assumed unforgeable); address announcements reach the victim's book through the RPC handler's entry point rather than through a gossip connection."),
  "C13": dict(engine="pipesim", design="DESIGN.md section 5 (C13)", level="fault_enumeration",
    technique="deterministic simulation of the real noise stream over fragmenting / back-pressuring pipes, plus enumeration of every single-point ciphertext tampering (frame x kind) per base session",
    text="Benign half (exploration): the real noise::Stream on both ends of a simulated duplex whose every poll is a seeded decision (1-byte reads splitting the length prefix, partial writes, spurious Pending, capacity 1); bytes read must be a prefix of bytes accepted, everything flushed must arrive, EOF exactly at the end after shutdown, no wire frame above 2+65535 bytes. Tamper half (fault enumeration): for each base session a relay applies each of 11 single-point tamperings to each ciphertext frame in turn; the reader must deliver a correct prefix and then fail or reach EOF, never altered, reordered or duplicated plaintext, also on subsequent reads.",
@@ -85,6 +85,8 @@ for p in ALL:
         NA[p] = "not yet built in this revision (planned, see DESIGN.md section 5)."
 
 ENGINES = [
+ {"name": "nodesim", "path": "sim/src/node", "serves_properties": ["C12"],
+  "kind_free_text": "deterministic simulation of whole network::Network nodes (accept loop, preface, noise, handshakes, pools, rpc) over a simulated TCP seam, with scripted adversaries built from raw protocol pieces"},
  {"name": "pipesim", "path": "sim/src/pipes", "serves_properties": [p for p, c in CHECKS.items() if c["engine"] == "pipesim"],
   "kind_free_text": "deterministic simulation of byte-stream components: real noise::Stream / mux / rpc::Service endpoints over SimPipe (an in-memory duplex whose every poll is a seeded decision), wire observers and a tampering relay"},
  {"name": "primsim", "path": "sim/src/prim", "serves_properties": [p for p, c in CHECKS.items() if c["engine"] == "primsim"] + ["C16"],
